@@ -261,7 +261,7 @@ Lemma comment_line p m x : allws p = true -> is_prefix_mark m -> parse_line (p +
 Proof.
   intros Hp Hm. rewrite parse_line_unfold. unfold strip. rewrite lstrip_app_ws by assumption.
   destruct Hm as [-> | [-> | ->]]; cbn [append]; rewrite lstrip_nonws by reflexivity;
-    repeat rewrite rstrip_nonws by reflexivity; reflexivity.
+    repeat rewrite rstrip_nonws by reflexivity; rewrite is_comment_alt; reflexivity.
 Qed.
 
 Lemma blank_line p : allws p = true -> parse_line p = None.
@@ -273,10 +273,10 @@ Proof.
   unfold fields. rewrite split_on_nochar; [reflexivity|]. unfold strip. now apply nochar_rstrip, nochar_lstrip.
 Qed.
 
-Lemma parse_lines_app a b : parse_lines (a ++ b) = parse_lines a ++ parse_lines b.
+Lemma parse_lines_app a b : parse_lines (a ++ b)%list = (parse_lines a ++ parse_lines b)%list.
 Proof. unfold parse_lines. apply flat_map_app. Qed.
 
-Lemma ignored_line l1 l2 c : parse_line c = None -> read_lines (l1 ++ c :: l2) = read_lines (l1 ++ l2).
+Lemma ignored_line l1 l2 c : parse_line c = None -> read_lines (l1 ++ c :: l2)%list = read_lines (l1 ++ l2)%list.
 Proof. intros H. unfold read_lines. rewrite !parse_lines_app. cbn. rewrite H. reflexivity. Qed.
 
 (* ------------------------------------------------------------------ the dictionary *)
@@ -287,7 +287,7 @@ Proof. induction d as [|[k' e'] r IH]; cbn; [now rewrite String.eqb_refl|].
 Lemma dict_get_set_other k k' e d : String.eqb k k' = false -> dict_get k (dict_set k' e d) = dict_get k d.
 Proof. intros N. induction d as [|[k2 e2] r IH]; cbn; [now rewrite N|].
   destruct (String.eqb k' k2) eqn:E; cbn.
-  - apply String.eqb_eq in E. subst. reflexivity.
+  - apply String.eqb_eq in E. subst. now rewrite N.
   - destruct (String.eqb k k2); [reflexivity | exact IH]. Qed.
 
 Lemma build_from_get k es : forall d,
@@ -302,7 +302,7 @@ Qed.
 Lemma lookup_last_occurrence k es : dict_get k (build_from [] es) = find_last k es.
 Proof. rewrite build_from_get. now destruct (find_last k es). Qed.
 
-Lemma find_last_app k a b : find_last k (a ++ b) = match find_last k b with Some x => Some x | None => find_last k a end.
+Lemma find_last_app k a b : find_last k (a ++ b)%list = match find_last k b with Some x => Some x | None => find_last k a end.
 Proof. induction a as [|e r IH]; cbn; [now destruct (find_last k b)|]. rewrite IH. now destruct (find_last k b). Qed.
 
 Lemma find_last_notin k es : ~ In k (map e_name es) -> find_last k es = None.
@@ -322,7 +322,7 @@ Proof.
 Qed.
 
 Lemma find_last_filter k es : find_last k es = find_last k (filter (fun e => String.eqb k (e_name e)) es).
-Proof. induction es as [|e r IH]; cbn; [reflexivity|]. destruct (String.eqb k (e_name e)) eqn:E; cbn; rewrite <- IH, ?E; reflexivity. Qed.
+Proof. induction es as [|e r IH]; cbn; [reflexivity|]. destruct (String.eqb k (e_name e)) eqn:E; cbn; rewrite <- IH, ?E; [reflexivity|]. now destruct (find_last k r). Qed.
 
 Lemma parse_lines_perm ls ls' : Permutation ls ls' -> Permutation (parse_lines ls) (parse_lines ls').
 Proof. intros P. unfold parse_lines. induction P; cbn.
@@ -345,25 +345,26 @@ Lemma reorder_with_duplicates ls ls' k :
 Proof. intros H. rewrite !read_lines_get, (find_last_filter k (parse_lines ls)), (find_last_filter k (parse_lines ls')). now rewrite H. Qed.
 
 Lemma last_wins ls1 ls2 k :
-  dict_get k (read_lines (ls1 ++ ls2)) =
+  dict_get k (read_lines (ls1 ++ ls2)%list) =
   match dict_get k (read_lines ls2) with Some e => Some e | None => dict_get k (read_lines ls1) end.
 Proof. rewrite !read_lines_get, parse_lines_app. apply find_last_app. Qed.
 
 (* iteration order of the keys = order of first occurrence *)
 Definition mem (k : string) (l : list string) : bool := existsb (String.eqb k) l.
 Definition add_keys (acc l : list string) : list string :=
-  fold_left (fun acc k => if mem k acc then acc else acc ++ [k]) l acc.
+  fold_left (fun acc k => if mem k acc then acc else (acc ++ [k])%list) l acc.
 
-Lemma keys_dict_set k e d : keys (dict_set k e d) = if mem k (keys d) then keys d else keys d ++ [k].
-Proof. induction d as [|[k' e'] r IH]; cbn; [reflexivity|]. destruct (String.eqb k k') eqn:E; cbn; [reflexivity|].
-  unfold keys in *. rewrite IH. now destruct (mem k (map fst r)). Qed.
+Lemma keys_dict_set k e d : keys (dict_set k e d) = if mem k (keys d) then keys d else (keys d ++ [k])%list.
+Proof. unfold keys, mem. induction d as [|[k' e'] r IH]; cbn [dict_set map fst existsb app]; [reflexivity|].
+  destruct (String.eqb k k') eqn:E; cbn [map fst orb]; [reflexivity|]. rewrite IH.
+  now destruct (existsb (String.eqb k) (map fst r)). Qed.
 
 Lemma keys_build_from es : forall d, keys (build_from d es) = add_keys (keys d) (map e_name es).
 Proof. induction es as [|e r IH]; intros d; [reflexivity|]. unfold build_from, add_keys in *. cbn [fold_left map].
   rewrite IH, keys_dict_set. reflexivity. Qed.
 
 Lemma mem_filter p k acc : p k = true -> mem k (filter p acc) = mem k acc.
-Proof. intros H. induction acc as [|a r IH]; cbn; [reflexivity|]. destruct (p a) eqn:E; cbn.
+Proof. intros H. unfold mem. induction acc as [|a r IH]; cbn [filter existsb]; [reflexivity|]. destruct (p a) eqn:E; cbn [existsb].
   - now rewrite IH.
   - rewrite IH. destruct (String.eqb_spec k a); [subst; congruence | reflexivity]. Qed.
 
@@ -395,18 +396,11 @@ Proof. destruct l; [reflexivity|]. intros H. now apply univ_noeol. Qed.
 
 Definition starts_lf (s : string) : bool := match s with String c _ => Ascii.eqb c LF | EmptyString => false end.
 
-Lemma univ_eol e rest : (e = EolCR -> starts_lf rest = false) ->
+Lemma univ_eol (e : eol) rest : (e = EolCR -> starts_lf rest = false) ->
   univ false (eol_str e ++ rest) = String LF (univ false rest).
 Proof.
   destruct e; intros H; cbn; [reflexivity | reflexivity |].
   f_equal. specialize (H eq_refl). destruct rest as [|c r]; [reflexivity|]. cbn in *. now rewrite H.
-Qed.
-
-Lemma starts_lf_join e l ls last : noeol l = true -> noeol last = true ->
-  starts_lf (join_lines EolCR (l :: ls) ++ last) = false.
-Proof.
-  intros H _. unfold join_lines. cbn. rewrite !sapp_assoc. destruct l as [|c r]; [reflexivity|]. cbn.
-  unfold noeol in H. cbn in H. apply andb_prop in H as [H _]. apply andb_prop in H as [H _]. now apply negb_true_iff in H.
 Qed.
 
 Lemma starts_lf_noeol l : noeol l = true -> starts_lf l = false.
@@ -418,15 +412,14 @@ Lemma universal_join e ls last : Forall (fun l => noeol l = true) ls -> noeol la
 Proof.
   intros F Hl. unfold universal. induction F as [|l ls H F IH].
   - cbn. rewrite <- (sapp_nil_r last) at 1. rewrite univ_noeol' by assumption. cbn. now rewrite sapp_nil_r.
-  - unfold join_lines in *. cbn [map String.concat].
-    assert (C : forall (x : string) xs, String.concat "" (x :: xs) = x ++ String.concat "" xs).
-    { intros x xs. destruct xs; cbn; [now rewrite sapp_nil_r | reflexivity]. }
-    rewrite !C, !sapp_assoc, univ_noeol' by assumption. f_equal.
+  - unfold join_lines in *. cbn [map cat].
+    assert (C : forall (x : string) xs, cat (x :: xs) = x ++ cat xs) by reflexivity.
+    rewrite !sapp_assoc, univ_noeol' by assumption. f_equal.
     rewrite univ_eol.
     + cbn. f_equal. exact IH.
     + intros ->. destruct ls as [|l2 ls2].
       * cbn. now apply starts_lf_noeol.
-      * inversion F; subst. rewrite C, !sapp_assoc. destruct l2 as [|c r]; [reflexivity|]. cbn.
+      * inversion F; subst. cbn [map cat]. rewrite !sapp_assoc. destruct l2 as [|c r]; [reflexivity|]. cbn.
         match goal with H : noeol (String c r) = true |- _ => unfold noeol in H; cbn in H;
           apply andb_prop in H as [H _]; apply andb_prop in H as [H _]; now apply negb_true_iff in H end.
 Qed.
@@ -442,13 +435,12 @@ Proof. induction l as [|c r IH]; [reflexivity|]. cbn. intros H. apply andb_prop 
   rewrite H1, (IH H2). now destruct r. Qed.
 
 Lemma readlines_join ls last : Forall (fun l => noeol l = true) ls -> noeol last = true ->
-  readlines (join_lines EolLF ls ++ last) = map (fun l => l ++ String LF "") ls ++ (if is_empty last then [] else [last]).
+  readlines (join_lines EolLF ls ++ last) = (map (fun l => (l ++ String LF "")%string) ls ++ (if is_empty last then [] else [last]))%list.
 Proof.
-  intros F Hl. assert (C : forall (x : string) xs, String.concat "" (x :: xs) = x ++ String.concat "" xs).
-  { intros x xs. destruct xs; cbn; [now rewrite sapp_nil_r | reflexivity]. }
+  intros F Hl.
   induction F as [|l ls H F IH]; unfold join_lines in *.
   - cbn. apply readlines_last. unfold noeol in Hl. now apply andb_prop in Hl as [Hl _].
-  - cbn [map]. rewrite C, !sapp_assoc. cbn [eol_str append]. rewrite readlines_line.
+  - cbn [map cat]. rewrite !sapp_assoc. cbn [eol_str append]. rewrite readlines_line.
     + cbn [app]. f_equal. exact IH.
     + unfold noeol in H. now apply andb_prop in H as [H _].
 Qed.
@@ -460,7 +452,7 @@ Lemma parse_lines_map_eol ls : parse_lines (map (fun l => l ++ String LF "") ls)
 Proof. unfold parse_lines. induction ls as [|l r IH]; cbn; [reflexivity|]. now rewrite parse_line_eol, IH. Qed.
 
 Lemma line_endings_irrelevant e ls last : Forall (fun l => noeol l = true) ls -> noeol last = true ->
-  read_text (join_lines e ls ++ last) = read_lines (ls ++ [last]).
+  read_text (join_lines e ls ++ last) = read_lines (ls ++ [last])%list.
 Proof.
   intros F Hl. unfold read_text. rewrite universal_join, readlines_join by assumption.
   unfold read_lines. rewrite !parse_lines_app, parse_lines_map_eol. f_equal. f_equal.
@@ -476,13 +468,7 @@ Proof.
     destruct (Ascii.eqb c CR); cbn; f_equal; apply IH.
 Qed.
 
-Fixpoint complete (s : string) : bool :=   (* empty, or ends with LF *)
-  match s with
-  | EmptyString => true
-  | String c r => if is_empty r then Ascii.eqb c LF else complete r
-  end.
-
-Lemma readlines_app u v : complete u = true -> readlines (u ++ v) = readlines u ++ readlines v.
+Lemma readlines_app u v : complete u = true -> readlines (u ++ v) = (readlines u ++ readlines v)%list.
 Proof.
   induction u as [|c r IH]; [reflexivity|]. cbn [complete append readlines]. intros H.
   destruct r as [|c2 r2].
@@ -491,6 +477,10 @@ Proof.
     cbn [append readlines]. destruct (Ascii.eqb c2 LF); [reflexivity|].
     destruct (readlines r2) eqn:E; cbn; reflexivity || (destruct r2; cbn in *; try discriminate; reflexivity).
 Qed.
+
+Lemma univ_false_nonempty s : s <> "" -> univ false s <> "".
+Proof. destruct s as [|a s]; [congruence|]. intros _. cbn. destruct (Ascii.eqb a LF); [discriminate|].
+  destruct (Ascii.eqb a CR); discriminate. Qed.
 
 Lemma complete_univ_lf b : forall f, complete (univ f (b ++ String LF "")) = true.
 Proof.
@@ -505,7 +495,7 @@ Proof.
     + destruct (Ascii.eqb c CR).
       * destruct (NE true) as [N|Z]; [apply G; [apply IH | exact N] | rewrite Z; reflexivity].
       * destruct (NE false) as [N|Z]; [apply G; [apply IH | exact N]|].
-        exfalso. clear -Z. destruct r; cbn in Z; discriminate.
+        exfalso. revert Z. apply univ_false_nonempty. destruct r; discriminate.
 Qed.
 
 Lemma read_text_append b x k :
@@ -513,4 +503,111 @@ Lemma read_text_append b x k :
   match dict_get k (read_text x) with Some e => Some e | None => dict_get k (read_text (b ++ String LF "")) end.
 Proof.
   unfold read_text, universal. rewrite univ_app_lf, readlines_app by apply complete_univ_lf. apply last_wins.
+Qed.
+
+Lemma univ_nocr s : forall f, nochar CR (univ f s) = true.
+Proof. induction s as [|c r IH]; intros f; cbn; [reflexivity|].
+  destruct (Ascii.eqb c LF) eqn:E1; [destruct f; cbn; auto|].
+  destruct (Ascii.eqb c CR) eqn:E2; cbn; [auto|]. now rewrite E2, IH. Qed.
+
+Lemma univ_nocr_app u x : nochar CR u = true -> univ false (u ++ x) = u ++ univ false x.
+Proof.
+  induction u as [|c r IH]; intros H; [reflexivity|]. cbn in H. apply andb_prop in H as [H1 H2]. apply negb_true_iff in H1.
+  cbn [append univ]. rewrite H1. destruct (Ascii.eqb_spec c LF) as [->|N]; cbn [append]; now rewrite (IH H2).
+Qed.
+
+Lemma client_override base params k : terminated base = true ->
+  dict_get k (read_text (client_text base params)) =
+  match dict_get k (read_text (cat (map param_line params))) with
+  | Some e => Some e
+  | None => dict_get k (read_text base)
+  end.
+Proof.
+  intros T. unfold client_text, read_text, universal at 1. rewrite univ_nocr_app by apply univ_nocr.
+  rewrite readlines_app by exact T. apply last_wins.
+Qed.
+
+Definition body (p : string * string) : string := fst p ++ ", " ++ snd p.
+
+Lemma clean_param_parse p : clean_param p = true ->
+  exists e, parse_line (body p) = Some e /\ e_name e = fst p /\ e_sval e = strip (snd p).
+Proof.
+  unfold clean_param. intros H.
+  apply andb_prop in H as [H H7]. apply andb_prop in H as [H H6]. apply andb_prop in H as [H H5].
+  apply andb_prop in H as [H H4]. apply andb_prop in H as [H H3]. apply andb_prop in H as [H1 H2].
+  apply String.eqb_eq in H5. apply negb_true_iff in H6, H7.
+  assert (N : lstrip (fst p) <> "") by (destruct (lstrip (fst p)); [discriminate | discriminate]).
+  pose proof (clean_line (fst p) (String " " (snd p))) as C.
+  unfold body. cbn [append]. change (fst p ++ String "," (String " " (snd p))) with (fst p ++ String COMMA (String " " (snd p))).
+  assert (V : nocomma (String " " (snd p)) = true) by (unfold nocomma in *; cbn; assumption).
+  specialize (C H3 V H6 N). unfold name_val in C.
+  destruct (parse_line (fst p ++ String COMMA (String " " (snd p)))) as [e|]; cbn [option_map] in C; [|discriminate].
+  exists e. inversion C as [[Hn Hs]]. split; [reflexivity|]. split; [congruence|].
+  rewrite Hs. transitivity (strip (" " ++ snd p ++ "")); [now rewrite sapp_nil_r | now apply strip_pad].
+Qed.
+
+Lemma clean_params_names ps : Forall (fun p => clean_param p = true) ps ->
+  map e_name (parse_lines (map body ps)) = map fst ps.
+Proof.
+  induction 1 as [|p r H F IH]; [reflexivity|]. unfold parse_lines in *. cbn [map flat_map].
+  destruct (clean_param_parse p H) as (e & -> & N & _). cbn. now rewrite IH, N.
+Qed.
+
+Lemma clean_params_find ps k v : Forall (fun p => clean_param p = true) ps -> NoDup (map fst ps) -> In (k, v) ps ->
+  option_map e_sval (find_last k (parse_lines (map body ps))) = Some (strip v).
+Proof.
+  induction 1 as [|p r H F IH]; intros ND I; [destruct I|]. cbn in ND. inversion ND as [|? ? NI ND']; subst.
+  unfold parse_lines in *. cbn [map flat_map]. destruct (clean_param_parse p H) as (e & -> & N & S).
+  cbn [app find_last]. destruct I as [-> | I].
+  - cbn in *. rewrite find_last_notin.
+    + rewrite N, String.eqb_refl. cbn. now rewrite S.
+    + fold (parse_lines (map body r)). now rewrite clean_params_names.
+  - specialize (IH ND' I). destruct (find_last k (flat_map _ (map body r))); [exact IH | discriminate IH].
+Qed.
+
+Lemma cat_param_lines ps : cat (map param_line ps) = join_lines EolLF (map body ps) ++ "".
+Proof. rewrite sapp_nil_r. unfold join_lines. induction ps as [|p r IH]; [reflexivity|]. cbn [map cat]. rewrite <- IH.
+  unfold param_line, body. cbn [eol_str]. now rewrite !sapp_assoc. Qed.
+
+Lemma clean_params_noeol ps : Forall (fun p => clean_param p = true) ps -> Forall (fun l => noeol l = true) (map body ps).
+Proof.
+  induction 1 as [|p r H F IH]; constructor; [|exact IH]. unfold clean_param in H.
+  apply andb_prop in H as [H _]. apply andb_prop in H as [H _]. apply andb_prop in H as [H _].
+  apply andb_prop in H as [H _]. apply andb_prop in H as [H _]. apply andb_prop in H as [H1 H2].
+  unfold body, noeol in *. rewrite !nochar_app.
+  apply andb_prop in H1 as [A1 A2]. apply andb_prop in H2 as [B1 B2]. now rewrite A1, A2, B1, B2.
+Qed.
+
+Lemma client_param_value params k v :
+  Forall (fun p => clean_param p = true) params -> NoDup (map fst params) -> In (k, v) params ->
+  option_map e_sval (dict_get k (read_text (cat (map param_line params)))) = Some (strip v).
+Proof.
+  intros F ND I. rewrite cat_param_lines, line_endings_irrelevant by (try apply clean_params_noeol; auto).
+  rewrite read_lines_get, parse_lines_app. cbn [parse_lines flat_map]. rewrite (blank_line "" eq_refl), app_nil_r.
+  now apply clean_params_find.
+Qed.
+
+Lemma client_override_counterexample : exists (base : string) (params : list (string * string)) (k v : string),
+  In (k, v) params /\ clean_param (k, v) = true /\ dict_get k (read_text (client_text base params)) = None
+  /\ option_map e_sval (dict_get "A" (read_text (client_text base params))) = Some "1B".
+Proof. exists "A, 1", [("B", "2")], "B", "2". repeat split; vm_compute; auto. Qed.
+
+(* argument orders of the statements in Props/C12.v *)
+Lemma lookup_is_last ls k : dict_get k (read_lines ls) = find_last k (parse_lines ls).
+Proof. apply read_lines_get. Qed.
+
+Lemma block_order (p : string -> bool) ls ls' :
+  filter p (map e_name (parse_lines ls)) = filter p (map e_name (parse_lines ls')) ->
+  filter p (keys (read_lines ls)) = filter p (keys (read_lines ls')).
+Proof. apply block_order_preserved. Qed.
+
+Lemma ignored_kinds l1 l2 c :
+  (allws c = true \/ nocomma c = true \/
+   exists p m x, allws p = true /\ (m = "#" \/ m = "--" \/ m = "*") /\ c = p ++ m ++ x) ->
+  read_lines (l1 ++ c :: l2)%list = read_lines (l1 ++ l2)%list.
+Proof.
+  intros H. apply ignored_line. destruct H as [H | [H | (p & m & x & Hp & Hm & ->)]].
+  - now apply blank_line.
+  - now apply commaless_line.
+  - now apply comment_line.
 Qed.
